@@ -90,6 +90,8 @@ fn level(e: &Expr) -> u8 {
 
 pub struct Printer<'a> {
     pub funcs: &'a [FuncDef],
+    /// see `Surface::redundant_parens`
+    pub redundant: bool,
 }
 
 impl<'a> Printer<'a> {
@@ -110,8 +112,8 @@ impl<'a> Printer<'a> {
             Expr::Bin(op, l, r) => {
                 let lv = op.level();
                 let (ll, rl) = (level(l), level(r));
-                let lp = ll > lv || (ll == lv && op.right_assoc());
-                let rp = rl > lv || (rl == lv && !op.right_assoc());
+                let lp = ll > lv || (ll == lv && (op.right_assoc() || self.redundant));
+                let rp = rl > lv || (rl == lv && (!op.right_assoc() || self.redundant));
                 let ls = self.expr(l);
                 let rs = self.expr(r);
                 format!(
@@ -367,7 +369,7 @@ fn lit_bare(v: &Val) -> String {
 }
 
 pub fn func_def(f: &FuncDef, funcs: &[FuncDef]) -> String {
-    let p = Printer { funcs };
+    let p = Printer { funcs, redundant: false };
     let params: Vec<String> = f
         .params
         .iter()
@@ -380,7 +382,7 @@ pub fn func_def(f: &FuncDef, funcs: &[FuncDef]) -> String {
 }
 
 pub fn program(prog: &Prog) -> String {
-    let p = Printer { funcs: &prog.funcs };
+    let p = Printer { funcs: &prog.funcs, redundant: prog.surface.redundant_parens };
     let sep = if prog.surface.newlines { "\n" } else { " | " };
     let mut out = String::new();
     // modules first
